@@ -54,6 +54,8 @@ def atomic_ops(ctx):
 
 
 def run(ctx, rep):
+    from props import accessors as _acc
+    _acc.check(ctx, rep, 'C16', 'R16.acc')
     ops = atomic_ops(ctx)
     rep.rule('R16.a', 'the counter triples move together: same operation, same operand on stream, topic and partition counter in every function that touches one', floor=7, analysis='A6')
     rep.rule('R16.b', 'the counters have one owner: modified only inside Segment / Partition / partition load', floor=26, analysis='A1')
